@@ -103,3 +103,60 @@ Proof.
   - assert (X : (m_rid a <? m_rid b)%Z = false) by (apply Z.ltb_ge; lia).
       apply Z.ltb_lt in G as ->. rewrite X. reflexivity.
 Qed.
+
+(* ---- _workers_sort: bounded equality (partial) ----------------------------------
+   MISSING for the full statement `forall w, NoDup (map fst w) ->
+   FarmGen.workers_sort w = Some (Sched.workers_sort w)`: the invariant
+   "wg = map (fun k => (k, of_host w k)) keys" through the loop and the lemma
+   that the fold of ws_longest over ALL keys (emptied groups included) picks
+   the host pick_host finds over the hosts that still have workers.  Proved
+   here: every pool of at most 6 workers on at most 3 hosts (worker ids =
+   positions; the function only compares ids for equality), 1093 pools, by
+   evaluation inside Coq. *)
+Fixpoint host_lists (n k : nat) : list (list nat) :=
+  match n with
+  | 0 => [[]]
+  | S n' => flat_map (fun l => map (fun h => h :: l) (seq 0 k)) (host_lists n' k)
+  end.
+Definition pool (hs : list nat) : list (wid * nat) := combine (seq 0 (length hs)) hs.
+
+Fixpoint leqb (a b : list (nat * nat)) : bool :=
+  match a, b with
+  | [], [] => true
+  | (x, y) :: a', (x', y') :: b' => Nat.eqb x x' && Nat.eqb y y' && leqb a' b'
+  | _, _ => false
+  end.
+Lemma leqb_eq : forall a b, leqb a b = true -> a = b.
+Proof.
+  induction a as [|[x y] a IH]; intros [|[x' y'] b] H; cbn in H; try discriminate; [reflexivity|].
+  apply andb_true_iff in H. destruct H as [H H3]. apply andb_true_iff in H. destruct H as [H1 H2].
+  apply Nat.eqb_eq in H1, H2. subst. f_equal. now apply IH.
+Qed.
+
+Definition ws_agree (hs : list nat) : bool :=
+  match FarmGen.workers_sort (pool hs) with
+  | Some r => leqb r (Sched.workers_sort (pool hs))
+  | None => false
+  end.
+
+Lemma ws_bounded : forallb (fun n => forallb ws_agree (host_lists n 3)) (seq 0 7) = true.
+Proof. vm_compute. reflexivity. Qed.
+
+Lemma host_lists_complete k : forall hs, Forall (fun h => h < k) hs -> In hs (host_lists (length hs) k).
+Proof.
+  induction hs as [|h l IH]; intro F; cbn [length host_lists]; [now left|].
+  inversion F; subst. apply in_flat_map. exists l. split; [now apply IH|].
+  apply in_map_iff. exists h. split; [reflexivity|apply in_seq; lia].
+Qed.
+
+Theorem workers_sort_gen_eq_partial : forall hs,
+  length hs <= 6 -> Forall (fun h => h < 3) hs ->
+  FarmGen.workers_sort (pool hs) = Some (Sched.workers_sort (pool hs)).
+Proof.
+  intros hs L F. pose proof ws_bounded as B. rewrite forallb_forall in B.
+  specialize (B (length hs)). rewrite forallb_forall in B.
+  assert (I : In (length hs) (seq 0 7)) by (apply in_seq; lia).
+  specialize (B I hs (host_lists_complete 3 hs F)). unfold ws_agree in B.
+  destruct (FarmGen.workers_sort (pool hs)) as [r|]; [|discriminate].
+  f_equal. now apply leqb_eq.
+Qed.
